@@ -39,7 +39,48 @@ import (
 	"github.com/siglens/siglens/pkg/hooks"
 	"github.com/siglens/siglens/pkg/segment/query"
 	"github.com/siglens/siglens/pkg/segment/writer"
+	log "github.com/sirupsen/logrus"
 )
+
+// c11LogWatch collects, per qid, the read path's own report that it skipped a segment because the key had left
+// the unrotated map between the check and the look-up (metadata.CheckMicroIndicesForUnrotated). Used only to
+// name the witness class of a loss that the stress run observed; an unexplained loss keeps the generic class.
+type c11LogWatch struct {
+	mu      sync.Mutex
+	skipped map[uint64]int
+}
+
+func (h *c11LogWatch) Levels() []log.Level { return []log.Level{log.ErrorLevel} }
+
+func (h *c11LogWatch) Fire(e *log.Entry) error {
+	m := e.Message
+	if !strings.Contains(m, "does not exist in unrotated") {
+		return nil
+	}
+	i := strings.Index(m, "qid=")
+	if i < 0 {
+		return nil
+	}
+	j := i + 4
+	for j < len(m) && m[j] >= '0' && m[j] <= '9' {
+		j++
+	}
+	id, err := strconv.ParseUint(m[i+4:j], 10, 64)
+	if err == nil {
+		h.mu.Lock()
+		h.skipped[id]++
+		h.mu.Unlock()
+	}
+	return nil
+}
+
+func (h *c11LogWatch) take(id uint64) int {
+	h.mu.Lock()
+	defer h.mu.Unlock()
+	n := h.skipped[id]
+	delete(h.skipped, id)
+	return n
+}
 
 type c11StressCfg struct {
 	seed  int64
@@ -80,6 +121,9 @@ func c11StressMain() {
 	nidx, _ := strconv.Atoi(os.Args[4])
 	dir := bootEngine()
 	defer os.RemoveAll(dir)
+	watch := &c11LogWatch{skipped: map[uint64]int{}}
+	log.SetLevel(log.ErrorLevel) // output stays discarded (main); the hook only reads messages
+	log.AddHook(watch)
 
 	var clock atomic.Int64   // logical time
 	var barrier atomic.Int64 // an event whose ingest call returned at logical time < barrier has been flushed
@@ -346,6 +390,7 @@ func c11StressMain() {
 				id := qid.Add(1)
 				vids, count, errs := runQid(stats, id)
 				both := overlap(id)
+				skippedSegs := watch.take(id)
 				nQueries.Add(1)
 				progress.Add(1)
 				if errs != "" {
@@ -380,7 +425,11 @@ func c11StressMain() {
 				}
 				for _, v := range need {
 					if seen[v] == 0 {
-						fail("conc/flushed-event-missing", fmt.Sprintf("a match-all query (%d hits) lacks event %d whose flush completed before the query began (%d such events)", len(vids), v, len(need)))
+						sig := "conc/flushed-event-missing"
+						if skippedSegs > 0 {
+							sig = "conc/read-window/flushed-event-missing"
+						}
+						fail(sig, fmt.Sprintf("a match-all query (%d hits) lacks event %d whose flush completed before the query began (%d such events); segments the read path reported as gone from the unrotated map between its check and its look-up: %d", len(vids), v, len(need), skippedSegs))
 						break
 					}
 				}
